@@ -56,6 +56,9 @@ func checkC12(c *Check) {
 		"every access to the slot list holds the lock; the synchronous part of the queue's dispatch callback never blocks; the queue closes the wheel before waiting for attempts; the panic handler only renames."
 	c.notCover = "the interleaving space itself (no schedule exploration): a race without one of these structural footprints is not seen."
 
+	c.Rule("L1", "scheduler locks: every mutex the package's functions take is released on every path to a return, and nothing unlocks a mutex it does not hold (immediate or deferred; function literals separately)", 2)
+	lockBalance(c, "L1", []string{queueRel}, nil)
+
 	qpk := p.Pkg(queueRel)
 	if qpk == nil {
 		c.Rule("R1", "send vs close", 1)
@@ -658,22 +661,32 @@ func locksHeldAtIP(p *Prog, fi *FuncInfo, pos token.Pos) map[*types.Var]bool {
 
 func locksHeldAtIPd(p *Prog, fi *FuncInfo, pos token.Pos, depth int) map[*types.Var]bool {
 	held := locksHeldAt(p, fi, pos)
-	if depth >= 3 || fi.Obj.Exported() {
+	if depth >= 4 {
 		return held
 	}
-	// inside a function literal (goroutine body, deferred closure) nothing is inherited
-	inLit := false
+	// inside a function literal: a goroutine body inherits nothing; a deferred closure inherits what is still held
+	// when the function exits; a closure bound to a local name that is only ever called inherits what every one of
+	// its call sites holds
+	var lit *ast.FuncLit
 	ast.Inspect(fi.Decl.Body, func(x ast.Node) bool {
 		if fl, ok := x.(*ast.FuncLit); ok && posIn(fl.Body, pos) {
-			inLit = true
+			lit = fl
 		}
 		return true
 	})
-	if inLit {
+	if lit != nil {
+		for m := range litInherited(p, fi, lit, depth) {
+			if !touchesMutex(fi.Info(), lit.Body, m) {
+				held[m] = true
+			}
+		}
+		return held
+	}
+	if fi.Obj.Exported() {
 		return held
 	}
 	var entry map[*types.Var]bool
-	sites := 0
+	sites, uses := 0, 0
 	escapes := false
 	p.AllFuncs([]*packagesPkg{fi.Pkg}, func(caller *FuncInfo) {
 		info := caller.Info()
@@ -701,29 +714,168 @@ func locksHeldAtIPd(p *Prog, fi *FuncInfo, pos token.Pos, depth int) map[*types.
 					}
 				}
 			case *ast.Ident:
-				// used as a value (method value / function value) somewhere
+				// a use that is not the callee of a call (method value / function value) escapes: counted
 				if info.Uses[n] == fi.Obj {
-					// calls are counted above; a use that is not the Fun of a call escapes – approximated by counting
+					uses++
 				}
 			}
 			return true
 		})
 	})
-	if escapes || sites == 0 {
+	if escapes || sites == 0 || uses > sites {
 		return held
 	}
 	info := fi.Info()
 	for m := range entry {
-		touches := false
-		ast.Inspect(fi.Decl.Body, func(x ast.Node) bool {
-			if call, ok := x.(*ast.CallExpr); ok && isCall(info, call, "sync.Mutex.Lock", "sync.RWMutex.Lock", "sync.RWMutex.RLock", "sync.Mutex.Unlock", "sync.RWMutex.Unlock", "sync.RWMutex.RUnlock") && fieldOf(info, callRecv(call)) == m {
-				touches = true
-			}
-			return true
-		})
-		if !touches {
+		if !touchesMutex(info, fi.Decl.Body, m) {
 			held[m] = true
 		}
 	}
 	return held
+}
+
+func touchesMutex(info *types.Info, body ast.Node, m *types.Var) bool {
+	touches := false
+	ast.Inspect(body, func(x ast.Node) bool {
+		if call, ok := x.(*ast.CallExpr); ok && (isLockCall(info, call) || isUnlockCall(info, call)) && fieldOf(info, callRecv(call)) == m {
+			touches = true
+		}
+		return true
+	})
+	return touches
+}
+
+// litInherited: the mutexes held whenever function literal lit (inside fi) runs, as far as the way it is used shows.
+func litInherited(p *Prog, fi *FuncInfo, lit *ast.FuncLit, depth int) map[*types.Var]bool {
+	info := fi.Info()
+	out := map[*types.Var]bool{}
+	var deferOf *ast.DeferStmt
+	var boundTo types.Object
+	isGo := false
+	ast.Inspect(fi.Decl.Body, func(x ast.Node) bool {
+		switch n := x.(type) {
+		case *ast.DeferStmt:
+			if ast.Unparen(n.Call.Fun) == ast.Expr(lit) {
+				deferOf = n
+			}
+		case *ast.GoStmt:
+			if ast.Unparen(n.Call.Fun) == ast.Expr(lit) {
+				isGo = true
+			}
+		case *ast.AssignStmt:
+			if len(n.Lhs) == len(n.Rhs) {
+				for i, r := range n.Rhs {
+					if ast.Unparen(r) == ast.Expr(lit) {
+						boundTo = objOf(info, n.Lhs[i])
+					}
+				}
+			}
+		case *ast.ValueSpec:
+			for i, r := range n.Values {
+				if ast.Unparen(r) == ast.Expr(lit) && i < len(n.Names) {
+					boundTo = info.Defs[n.Names[i]]
+				}
+			}
+		}
+		return true
+	})
+	if isGo {
+		return out
+	}
+	atExit := func(d *ast.DeferStmt) map[*types.Var]bool {
+		h := locksHeldAtIPd(p, fi, d.Pos(), depth+1)
+		// the body the defer statement belongs to
+		var body *ast.BlockStmt = fi.Decl.Body
+		ast.Inspect(fi.Decl.Body, func(x ast.Node) bool {
+			if fl, ok := x.(*ast.FuncLit); ok && posIn(fl.Body, d.Pos()) {
+				body = fl.Body
+			}
+			return true
+		})
+		f := p.FlowOf(info, body, fi.Name())
+		dpt, ok := f.PtOf(d.Pos())
+		res := map[*types.Var]bool{}
+		if !ok {
+			return res
+		}
+		for m := range h {
+			m := m
+			unl := func(pt Pt) bool {
+				for _, call := range append(callsAt(pt.Node()), deferredCalls(pt.Node())...) {
+					if isUnlockCall(info, call) && fieldOf(info, callRecv(call)) == m {
+						return true
+					}
+				}
+				return false
+			}
+			// released explicitly later, or by a defer registered later (which runs earlier): not held at exit
+			if _, found := f.Reach(Query{From: []Pt{dpt}, Target: unl}); !found {
+				res[m] = true
+			}
+		}
+		return res
+	}
+	if deferOf != nil {
+		return atExit(deferOf)
+	}
+	if boundTo == nil {
+		return out
+	}
+	// every use of the name must be the callee of a call (or of a defer)
+	first := true
+	ok := true
+	var stack []ast.Node
+	ast.Inspect(fi.Decl.Body, func(x ast.Node) bool {
+		if x == nil {
+			stack = stack[:len(stack)-1]
+			return true
+		}
+		stack = append(stack, x)
+		id, isID := x.(*ast.Ident)
+		if !isID || info.Uses[id] != boundTo {
+			return true
+		}
+		var h map[*types.Var]bool
+		if len(stack) >= 2 {
+			if call, isCall := stack[len(stack)-2].(*ast.CallExpr); isCall && ast.Unparen(call.Fun) == ast.Expr(id) {
+				if len(stack) >= 3 {
+					switch par := stack[len(stack)-3].(type) {
+					case *ast.GoStmt:
+						if par.Call == call {
+							ok = false
+							return true
+						}
+					case *ast.DeferStmt:
+						if par.Call == call {
+							h = atExit(par)
+						}
+					}
+				}
+				if h == nil {
+					h = locksHeldAtIPd(p, fi, call.Pos(), depth+1)
+				}
+			}
+		}
+		if h == nil {
+			ok = false
+			return true
+		}
+		if first {
+			first = false
+			for m := range h {
+				out[m] = true
+			}
+		} else {
+			for m := range out {
+				if !h[m] {
+					delete(out, m)
+				}
+			}
+		}
+		return true
+	})
+	if !ok || first {
+		return map[*types.Var]bool{}
+	}
+	return out
 }
